@@ -966,6 +966,7 @@ func (a *Analysis) factsAt(b int, upto ssa.Instruction) []Aff {
 			break
 		}
 	}
+	usedIf := map[*ssa.If]bool{}
 	for i, bi := range chain {
 		blk := a.G.Fn.Blocks[bi]
 		if i > 0 {
@@ -973,6 +974,7 @@ func (a *Analysis) factsAt(b int, upto ssa.Instruction) []Aff {
 			if len(a.G.Preds[bi]) == 1 && a.G.Preds[bi][0] == p {
 				pb := a.G.Fn.Blocks[p]
 				if ifi, ok := pb.Instrs[len(pb.Instrs)-1].(*ssa.If); ok && pb.Succs[0] != pb.Succs[1] {
+					usedIf[ifi] = true
 					facts = append(facts, a.edgeFacts(ifi.Cond, pb.Succs[0].Index == bi, withLenNonneg(facts), bi)...)
 				}
 			}
@@ -991,6 +993,14 @@ func (a *Analysis) factsAt(b int, upto ssa.Instruction) []Aff {
 			}
 		}
 	}
+	// branch outcomes that hold here without lying on the dominator chain
+	// (unfolded from facts about phis, see ssax.Graph.FactsAt)
+	for _, f := range a.G.FactsAt(b) {
+		if f.If != nil && usedIf[f.If] && f.Cond == stripNot(f.If.Cond) {
+			continue
+		}
+		facts = append(facts, a.edgeFacts(f.Cond, f.Val, withLenNonneg(facts), b)...)
+	}
 	// conditional merge facts whose condition is known here
 	if len(a.cond) > 0 {
 		for _, f := range a.G.FactsAt(b) {
@@ -1003,6 +1013,16 @@ func (a *Analysis) factsAt(b int, upto ssa.Instruction) []Aff {
 		}
 	}
 	return withLenNonneg(facts)
+}
+
+func stripNot(v ssa.Value) ssa.Value {
+	for {
+		u, ok := v.(*ssa.UnOp)
+		if !ok || u.Op != token.NOT {
+			return v
+		}
+		v = u.X
+	}
 }
 
 func withLenNonneg(f []Aff) []Aff {
